@@ -13,5 +13,7 @@ for d in ocaml/c*/; do
   [ -f "$d/driver.ml" ] && [ -f "$d/model.ml" ] && { ./ocaml/build.sh "$p" || echo "setup: ocaml driver $p did not build"; }
 done
 (cd harness && timeout 3400 cargo build --offline --bins --keep-going >../work/setup-cargo.log 2>&1) || { echo "setup: some harness binaries did not build (see work/setup-cargo.log):"; grep -E "^error" work/setup-cargo.log | head -20; }
+# C03 also ties the partition-key arithmetic with overflow checks off (second build of its runner)
+(cd harness && CARGO_PROFILE_DEV_OVERFLOW_CHECKS=false CARGO_TARGET_DIR=/verif/build/cargo-c03-nochk timeout 3400 cargo build --offline --bin c03 >../work/setup-cargo-c03-nochk.log 2>&1) || echo "setup: the unchecked C03 runner did not build (see work/setup-cargo-c03-nochk.log)"
 echo setup done
 exit 0
